@@ -45,13 +45,13 @@ package scheduler_util
 //@   ensures result == lessV(fn, arg0, arg1)
 //@   note assumed: the comparator stored in a priorityQueue is pure and a deterministic function of its two arguments (not of the heap state): true for the task / pod-set / job comparators while the compared objects keep their ordering keys; NOT true for the queue-node comparators of actions/utils (they look at the current best job below each node), for which no ordering clause is claimed
 //@ end
-// strict weak order: what container/heap needs from Less for "Pop returns the minimum". swo(f) is only ever a
-// HYPOTHESIS of ordering clauses (nothing establishes it: it is a property of the registered comparators); the
-// axioms below are its definition, used left to right.
+// strict weak order (irreflexive, transitive, incomparability transitive): what container/heap needs from Less for
+// "Pop returns the minimum". swo(f) is an uninterpreted predicate that is only ever a HYPOTHESIS of ordering clauses
+// (nothing establishes it: it is a property of the registered comparators). The assumed container/heap contracts
+// below are to be read with that meaning; the only verified code that needs part of it, lastToPopIndex, spells out
+// what it uses as a local assumption ([swoMeaning]: irreflexive and transitive). NB: the victims comparator of
+// actions/utils (!JobOrderFn) is reflexive, so swo does not hold for it and no ordering clause applies to victims queues.
 //@ declare swo(f ref) bool
-//@ axiom forall f ref, a ref :: swo(f) ==> !lessV(f, a, a)
-//@ axiom forall f ref, a ref, b ref, c ref :: swo(f) && lessV(f, a, b) && lessV(f, b, c) ==> lessV(f, a, c)
-//@ axiom forall f ref, a ref, b ref, c ref :: swo(f) && !lessV(f, a, b) && !lessV(f, b, c) ==> !lessV(f, a, c)
 // the heap invariants of container/heap on the item slice s: no child (slot c) is handed out before its parent (slot p) ...
 //@ define heapShape(s []interface{}, f ref) bool = forall p int, c int :: 0 <= p && p < c && c < len(s) && (c == 2 * p + 1 || c == 2 * p + 2) ==> !lessV(f, s[c], s[p])
 // ... and their consequence (induction over the depth, for a strict weak order): nothing is handed out before the root
@@ -115,6 +115,8 @@ package scheduler_util
 //@ func (*priorityQueue).lastToPopIndex
 //@   props C16 C03
 //@   requires pq != nil
+//@   assume [swoMeaning] swo(pq.lessFn) ==> (forall a ref :: !lessV(pq.lessFn, a, a)) && (forall a ref, b ref, c ref :: lessV(pq.lessFn, a, b) && lessV(pq.lessFn, b, c) ==> lessV(pq.lessFn, a, c))
+//@   note assume [swoMeaning]: the part of the definition of swo (strict weak order) this function uses
 //@   pure
 //@   loop 1
 //@     invariant 1 <= i && 0 <= last && last < i && (len(pq.items) > 0 ==> i <= len(pq.items))
